@@ -237,7 +237,9 @@ class Gen:
             sub = self.select(outer, depth - 1, want=None, classes=classes, plain=r.chance(60), corr=False)
             return "(%s) AS %s" % (sub.sql, al), "(fq %s)" % sub.sx, list(zip(sub.names, sub.types)), al
         if k < 4 and self.ctes:
-            name, sub = r.choice(self.ctes)
+            # each CTE is referenced at most once per statement in this stream: two references to one CTE
+            # share table refs inside the engine (self-joins of a CTE are a listed known finding)
+            name, sub = self.ctes.pop(r.below(len(self.ctes)))
             classes.add("cte")
             classes |= sub.classes
             return "%s AS %s" % (name, al), "(fq %s)" % sub.sx, list(zip(sub.names, sub.types)), al
@@ -305,7 +307,7 @@ class Gen:
         return sql, sx
 
     # ------------------------------------------------------------ SELECT blocks
-    def select(self, outer, depth, want=None, classes=None, force_global_agg=False, plain=False, corr=True):
+    def select(self, outer, depth, want=None, classes=None, force_global_agg=False, plain=False, corr=True, top=False):
         """A SELECT block.  want: list of output types or None.  Returns Q (sql without trailing ORDER BY)."""
         r = self.rng
         classes = classes if classes is not None else set()
@@ -406,7 +408,9 @@ class Gen:
         distinct = (not grouped) and r.chance(15)
         if distinct:
             classes.add("distinct")
-        names = ["o%d" % i for i in range(len(sel_sql))]
+        # output aliases of the outermost block get their own prefix: `ORDER BY o1` must not also name a
+        # column of a FROM item (the engine reports that as ambiguous instead of preferring the alias)
+        names = [("r%d" if top else "o%d") % i for i in range(len(sel_sql))]
         sql = "SELECT %s%s FROM %s" % ("DISTINCT " if distinct else "",
                                        ", ".join("%s AS %s" % (s, n) for s, n in zip(sel_sql, names)), fsql)
         if wsql:
@@ -434,9 +438,9 @@ class Gen:
             classes.add("cte_def")
             if mat:
                 classes.add("cte_materialized")
-        q = self.select([], depth, classes=classes)
+        q = self.select([], depth, classes=classes, top=True)
         if self.o["setops"] and r.chance(15):
-            q2 = self.select([], depth - 1, want=q.types, classes=classes)
+            q2 = self.select([], depth - 1, want=q.types, classes=classes, top=True)
             allf = r.chance(50)
             classes.add("union")
             q = Q("%s UNION %s%s" % (q.sql, "ALL " if allf else "", q2.sql),
